@@ -15,6 +15,7 @@ func h_compileRace(a, b int, sc, rt bool) {
 			bd.AddTemplateString(f.name, f.src)
 		}
 		bd.AddGlobalsMap(c13Globals)
+		bd.AddGlobalsMap(c13Globals2)
 		reg, err := bd.Compile()
 		if err != nil {
 			return "reject: " + err.Error()
